@@ -30,9 +30,10 @@ type FieldJ struct {
 }
 
 type StructJ struct {
-	Module string    `json:"module"`
-	Name   string    `json:"name"`
-	Fields []*FieldJ `json:"fields"`
+	Module        string    `json:"module"`
+	Name          string    `json:"name"`
+	Fields        []*FieldJ `json:"fields"`
+	JSONOmitEmpty bool      `json:"json_omitempty,omitempty"`
 }
 
 type EnumJ struct {
@@ -113,7 +114,7 @@ func (sj *SchemaJ) Resolve() (*Schema, error) {
 	}
 	for _, st := range sj.Structs {
 		k := st.Module + "." + st.Name
-		s.Structs[k] = &Struct{Module: st.Module, Name: st.Name}
+		s.Structs[k] = &Struct{Module: st.Module, Name: st.Name, JSONOmitEmpty: st.JSONOmitEmpty}
 		s.Order = append(s.Order, k)
 	}
 	var conv func(t *TypeJ) (*Type, error)
